@@ -9,7 +9,7 @@ META = {
                    "is decided by z3 for all values on that path",
     "bounds": {"split": "byte strings of length 0..6, 1..4 slice lengths each 0..len+1",
                "blocks": "identifier size 1..3, capacity 1..4, n 0..7, slack 0..2 bytes",
-               "ints": "widths 0..8 bytes (SX) and 0..4/0..16 bytes (BVX bit-vectors), all values; xor operands up to 4/16 bytes, second operand shorter or equal"},
+               "ints": "widths 0..6 bytes (SX) and 0..4/0..16 bytes (BVX bit-vectors), all values; xor operands up to 4/16 bytes, second operand shorter or equal"},
     "outside_bounds": "longer strings / larger geometries (the code does not branch on content beyond the "
                       "all-zero test); bytes.fromhex / bytes.hex / str.encode are CPython builtins = environment",
     "stubs": ["bytes/str codec builtins in convert_database_keyword_to_bytes are replaced by an opaque injective "
@@ -65,11 +65,11 @@ def h_blocks(P, S):
                                         parse_identifiers_from_block_given_identifier_size,
                                         parse_identifiers_from_block_given_entry_count_in_one_block)
     size, cap, n, slack = P["size"], P["cap"], P["n"], P["slack"]
-    raw = S.bytes("ids", n * size)
-    ids = [raw[i * size:(i + 1) * size] for i in range(n)]
-    for i in ids:  # domain: identifiers are not all-zero
-        if i == b"\x00" * size:
-            return True
+    # domain: identifiers are not all-zero - one byte position (rotating) is 1..255, which states the predicate
+    # without a fork per identifier
+    # (large geometries: the non-zero byte is the first or second one only - the parser's zero test short-circuits
+    # byte by byte, so a late non-zero position costs one fork per earlier byte and identifier)
+    ids = [S.ident("id%d" % i, size, zero_free_pos=(i % 2 if P.get("big") else i)) for i in range(n)]
     bs = cap * size + slack
     if P["explicit_bs"]:
         blocks = list(partition_identifiers_to_blocks(ids, cap, size, bs))
@@ -335,16 +335,22 @@ def obligations(tier, seed):
                                   "harness.c17", "h_blocks",
                                   {"size": size, "cap": cap, "n": n, "slack": slack, "explicit_bs": ebs},
                                   budget_s=120))
+    if tier != "quick":
+        # the geometries of the repository's own tests and of the default configurations, contents symbolic
+        for size, cap, n, slack in ((40, 3, 7, 0), (1, 70, 141, 0)):
+            obs.append(ob("c17.blocks.big.s%d.c%d.n%d.k%d" % (size, cap, n, slack), "harness.c17", "h_blocks",
+                          {"size": size, "cap": cap, "n": n, "slack": slack, "explicit_bs": True, "big": True},
+                          budget_s=400, per_path_s=120))
     obs.append(twin("c17.blocks.twin", "harness.c17", "h_blocks",
                     {"size": 2, "cap": 2, "n": 3, "slack": 1, "explicit_bs": True, "twin": True}))
     for size, cap in ((1, 1), (2, 3), (3, 4)):
         for ne in (False, True):
             obs.append(ob("c17.blocks_refuse.s%d.c%d.%s" % (size, cap, "one" if ne else "empty"), "harness.c17",
                           "h_blocks_refuse", {"size": size, "cap": cap, "nonempty": ne}))
-    for w in (range(0, 5) if tier == "quick" else range(0, 9)):
+    for w in (range(0, 5) if tier == "quick" else range(0, 7)):
         obs.append(ob("c17.ints.w%d" % w, "harness.c17", "h_ints", {"w": w, "extra": 1 + w % 3}))
     obs.append(twin("c17.ints.twin", "harness.c17", "h_ints", {"w": 2, "extra": 1, "twin": True}))
-    for w in (range(0, 4) if tier == "quick" else range(0, 7)):
+    for w in (range(0, 4) if tier == "quick" else range(0, 6)):
         obs.append(ob("c17.int_minimal.w%d" % w, "harness.c17", "h_int_minimal", {"w": w}))
     for n in (range(0, 5) if tier == "quick" else range(0, 17)):
         for m in sorted({0, n // 2, n}):
